@@ -17,7 +17,7 @@ PROP = "C20"
 META = dict(
     technique="Coq proof (reals with the true cos; axiom-free integer schedule by strong induction) + coqc-evaluated IEEE model vs crate correspondence",
     text="Machine-checked (Coq 8.16.1): over the reals with the true cosine, Hann(p) = 0.5(1-cos 2 pi p) lies in [0,1], is symmetric about 1/2 where it is 1, is 0 at both ends, Rectangle is 1, and the window of n >= 2 frames samples the phases frac(i/(n-1)) (i/(n-1) for i < n-1; the last one wraps 1 -> 0 through `% 1.0`, where Hann takes the same value). Axiom-free, for every frame count L, bin >= 1, hop >= 1: the Windower model (next and size_hint written after the source) yields exactly (L-b)/h+1 chunks if b <= L else none, chunk k is frames[k*h .. k*h+b-1], never panics, and size_hint equals the number of chunks still to come in every state; the j-th frame of a Windowed chunk is mul_amp(frame j, window value j). The model is tied to the crates by running its IEEE instance (binary64 phases, f32/f64/i16 frames) inside coqc on the same cases and comparing phases, window frames, chunk contents, size hints and chunk counts exactly; cos goes through libm and is compared against math.cos with a 4-ulp tolerance.",
-    note="The provided Iterator methods (last, nth, count, fold, skip, step_by, collect, by_ref) of Windower / Window / Windowed are modelled as their core::iter defaults over next, proved to give chunk count-1 / chunk k / count, and exercised in the correspondence (the cases are transported into coqc as uint63 literals, Signal/WindowWire.v). Trusted: Coq kernel; the hand-written model (slices as lists, usize as nat); Base/Float.v (validated against rustc in the same run); harness + python generators. Axioms: the standard real-number axioms for the R theorems only; the schedule theorems are closed. In floating point the last sampled phase is whatever (n-1) additions of fl(1/(n-1)) give after `% 1.0` (0 or just below 1): covered by the exact comparison of phases, not by the R theorem.",
+    note="Chunk scaling is exercised in all 14 sample formats through the generated C03 sample operations (Sample/SampleOps.v over gen/ConvFloatGen.v, regenerated on every run) guarded by their specification values (Signal/WindowFmtGen.v), so a wrong conversion in dasp_sample shows up as a disagreement. The provided Iterator methods (last, nth, count, fold, skip, step_by, collect, by_ref) of Windower / Window / Windowed are modelled as their core::iter defaults over next, proved to give chunk count-1 / chunk k / count, and exercised in the correspondence (the cases are transported into coqc as uint63 literals, Signal/WindowWire.v). Trusted: Coq kernel; the hand-written model (slices as lists, usize as nat); Base/Float.v (validated against rustc in the same run); harness + python generators. Axioms: the standard real-number axioms for the R theorems only; the schedule theorems are closed. In floating point the last sampled phase is whatever (n-1) additions of fl(1/(n-1)) give after `% 1.0` (0 or just below 1): covered by the exact comparison of phases, not by the R theorem.",
     design="6/C20")
 HEADER = "From Dasp Require Import Signal.WindowRun."
 CHECK = "check"
@@ -84,7 +84,7 @@ def build(item, ops=None):
         it["line"] = "W %d %d %d %d %d %d %d %s" % (it["wk"], it["fk"], it["nch"], it["b"], it["h"], it["maxn"],
                                                    len(fr), " ".join(map(str, flat)))
         z = F.zlit
-        it["coq"] = "WCase %s %s %s %s %s %s %s" % (WK[it["wk"]], FK[it["fk"]], z(it["nch"]), z(it["b"]), z(it["h"]),
+        it["coq"] = "WCase %s %s %s %s %s %s %s" % (WK[it["wk"]], fk_coq(it["fk"]), z(it["nch"]), z(it["b"]), z(it["h"]),
                                                    z(it["maxn"]), F.zlistlist(fr))
     elif it["kind"] == "I":
         if ops is not None:
@@ -110,7 +110,7 @@ def build(item, ops=None):
             " , ".join(" ".join(map(str, o)) for o in it["ops"]))
         z = F.zlit
         it["coq"] = "ICase %s %s %s %s %s %s %s [%s]" % (
-            WK[it["wk"]], FK[it["fk"]], z(it["nch"]), z(it["b"]), z(it["h"]), z(it["np"]), F.zlistlist(fr),
+            WK[it["wk"]], fk_coq(it["fk"]), z(it["nch"]), z(it["b"]), z(it["h"]), z(it["np"]), F.zlistlist(fr),
             "; ".join(IOP[o[0]] + "".join(" " + z(a) for a in o[1:]) for o in it["ops"]))
     else:
         it["ops"] = []
@@ -168,7 +168,46 @@ def icase(r, combo, L, b, h, ops):
     return build(dict(kind="I", wk=wk, fk=fk, nch=nch, b=b, h=h, frames=frames, ops=ops))
 
 
+FMT14 = ["i8", "i16", "I24", "i32", "I48", "i64", "u8", "u16", "U24", "u32", "U48", "u64", "f32", "f64"]
+BITS14 = [8, 16, 24, 32, 48, 64, 8, 16, 24, 32, 48, 64]
+
+
+def fk_coq(fk):
+    return FK[fk] if fk < 100 else "(KGen %d)" % (fk - 100)
+
+
+def fk_name(fk):
+    return FK[fk] if fk < 100 else "gen:" + FMT14[fk - 100]
+
+
+def rand_sample14(r, c):
+    """a sample of format code c: at and near the rails, near equilibrium, a power of two, or anything"""
+    if c == 12:
+        return rand_sample(r, 0)
+    if c == 13:
+        return rand_sample(r, 1)
+    bits = BITS14[c]
+    signed = c < 6
+    lo, hi = (-(1 << (bits - 1)), (1 << (bits - 1)) - 1) if signed else (0, (1 << bits) - 1)
+    eq = 0 if signed else 1 << (bits - 1)
+    k = r.below(10)
+    d = r.choice([0, 1, 2, 3, 63, 64, 65, 100, 127, 128, 1000, 1023, 1024, 1025, 2047, 2048, 4096, r.below(1 << 12)])
+    if k < 2:
+        v = hi - d
+    elif k < 3:
+        v = lo + d
+    elif k < 6:
+        v = eq + r.choice([-1, 1]) * d
+    elif k < 7:
+        v = eq + r.choice([-1, 1]) * (1 << r.below(bits - 1))
+    else:
+        v = r.range(lo, hi)
+    return max(lo, min(hi, v))
+
+
 def rand_sample(r, fk):
+    if fk >= 100:
+        return rand_sample14(r, fk - 100)
     if fk == 2:
         k = r.below(10)
         if k == 0:
@@ -236,6 +275,38 @@ def gen_cases(rng, tier):
                 if b >= 2 and h >= 1:
                     continue
                 add(L, b, h, maxn=min(L + 3, 5))
+    # 3a. chunk scaling in ALL fourteen sample formats (generated, specification-guarded sample operations):
+    #     rectangle (window value exactly 1.0 everywhere) and Hann with odd bins (exactly 1.0 at the centre),
+    #     samples at/near the rails and near equilibrium, mono and multi-channel
+    n_f0 = len(items)
+    reps = 1 if tier == "quick" else 12
+    for rep_ in range(reps):
+        for c in range(14):
+            for nch in (1, 2, 3):
+                if tier == "quick" and nch == 3 and c % 3 != 0:
+                    continue
+                for wk, b in ((1, 2 + rep_ % 3), (0, 3 + 2 * (rep_ % 3)), (0, 4) if (c + nch + rep_) % 3 == 0 else (1, 5)):
+                    r = rng.fork(f"f{len(items)}")
+                    L = b + r.range(0, 5)
+                    h = r.choice([1, 2, b, b + 1]) if tier != "quick" else r.choice([2, b, b + 1])
+                    it = wcase(r, (wk, 100 + c, nch), L, b, h)
+                    if c < 12 and L >= b:
+                        # deterministic rail / near-equilibrium samples where the window value is exactly 1.0
+                        # (every rectangle position; the centre of an odd Hann bin): first chunk, channel 0 / last
+                        bits, sg = BITS14[c], c < 6
+                        hi = (1 << (bits - 1)) - 1 if sg else (1 << bits) - 1
+                        eq = 0 if sg else 1 << (bits - 1)
+                        mid = (b - 1) // 2
+                        near = eq + r.choice([-1, 1]) * r.choice([d for d in (1, 2, 100, 1000) if d < (1 << (bits - 1))])
+                        fr = it["ops"]
+                        fr[mid][0] = r.choice([hi, hi - r.below(64)])
+                        fr[mid][nch - 1 if nch > 1 else 0] = near if nch > 1 or r.chance(1, 2) else fr[mid][0]
+                        if wk == 1:
+                            fr[0][0] = near
+                            fr[b - 1][0] = hi - r.below(64)
+                        it = build(it)
+                    items.append(it)
+    n_fmt = len(items) - n_f0
     n_w = len(items)
     # 3b. the provided Iterator methods (last, nth, count, skip, step_by, fold, collect, by_ref) on Windower,
     #     Window and Windowed; (L - b) % h != 0 prominent: there the last chunk does not end at the last frame
@@ -258,7 +329,7 @@ def gen_cases(rng, tier):
         nchunks = expected_count(L, b, h)
         ops = [r.choice([["last"], ["nth", max(0, nchunks - 1)], ["skip", max(0, nchunks - 1)], ["count"]])]
         ops += [rand_iop(r, nchunks) for _ in range(r.range(3, 8))]
-        items.append(icase(r, combo(), L, b, h, ops))
+        items.append(icase(r, (r.below(2), 100 + r.below(14), r.range(1, 2)) if k % 5 == 0 else combo(), L, b, h, ops))
     n_i = len(items)
     # 4. dasp_window functions through the trait
     for k in range(30 if tier == "quick" else 300):
@@ -274,7 +345,7 @@ def gen_cases(rng, tier):
     for i in range(len(items) - 1, 0, -1):
         j = sh.below(i + 1)
         items[i], items[j] = items[j], items[i]
-    return items, dict(grid=n_grid, big_and_offdomain=n_w - n_grid, iterator_methods=n_i - n_w, window_fn=n_w2 - n_i)
+    return items, dict(grid=n_grid, big_and_offdomain=n_w - n_grid - n_fmt, all_formats=n_fmt, iterator_methods=n_i - n_w, window_fn=n_w2 - n_i)
 
 
 def expected_count(L, b, h):
@@ -381,7 +452,11 @@ def wtoks(v):
         return [v]
     if -T61 < v < 0:
         return [T61 - v]
-    assert T61 <= v < (1 << 123)
+    if v < 0:  # large negative (i64 / I48 samples)
+        m = -v
+        assert m < (1 << 122)
+        return [T62 + T61 + (m >> 62), m & (T62 - 1)]
+    assert v < (1 << 122)
     return [T62 + (v >> 62), v & (T62 - 1)]
 
 
@@ -435,7 +510,16 @@ def case_dict(it):
 
 def main(rep, tier, seed):
     rng = F.Rng(seed)
+    # the generated sample conversions / companion table the all-formats cases run through (same helper as C03)
+    try:
+        from props import c03
+        terr, regenerated = c03.regenerate()
+    except Exception as e:  # translator crash = model cannot be regenerated
+        terr, regenerated = f"{type(e).__name__}: {e}", []
+    if terr:
+        rep.violation("translate", {"kind": "model cannot be regenerated: the translators do not recognise the current dasp_sample sources (the committed generated model is used for the rest of this run)", "error": terr}, no_input=True)
     info = F.standard_proof_phase(rep, PROP, allowed_axioms=F.AX_REALS)
+    info["regenerated"] = regenerated
     fb_n, fb_bad, fb_err = floatbase.run(rng.fork("floatbase"), 400 if tier == "quick" else 3000)
     for name, msg in fb_err:
         rep.violation("floatbase_error", {"kind": "float base validation could not be evaluated", "where": name, "log": msg}, no_input=True)
@@ -481,6 +565,7 @@ def main(rep, tier, seed):
             "kind": "model/implementation disagreement: dasp_signal::window does not behave as the proved window/windower model",
             "case": case_dict(small), "harness_line": small["line"], "implementation_observations": out,
             "model_observations": model[-3000:], "original_case_index": idx,
+            "poison_values": "in model_observations -2^201 marks a value where the conversion regenerated from the current dasp_sample source disagrees with its specification (amp/2^(bits-1) correctly rounded; trunc(f*2^(bits-1)) re-offset, saturating), -2^200 a panic of the generated model",
             "replay": "./check.py C20 --replay <this file>"})
     # distribution
     hist = {"count": {}, "class": {}, "window": {}, "format": {}, "bin": {}}
@@ -503,7 +588,7 @@ def main(rep, tier, seed):
             continue
         L, b, h = len(it["ops"]), it["b"], it["h"]
         bump("window", WK[it["wk"]])
-        bump("format", FK[it["fk"]] + "x%d" % it["nch"])
+        bump("format", fk_name(it["fk"]) + "x%d" % it["nch"])
         bump("bin", b)
         if b < 2 or h < 1:
             bump("class", "off_domain(bin<2 or hop=0)")
@@ -533,10 +618,11 @@ def finish(rep, info, n, nontriv, dist, samples, bad=(), vbad=(), fb=(0, 0)):
         "trusted_base": F.TRUSTED_COMMON + [
             "axioms: the real-number theorems use only Coq's standard real-number axioms (ClassicalDedekindReals.sig_forall_dec, sig_not_dec, functional_extensionality_dep; Classical_Prop.classic if reported); every schedule theorem is closed under the global context",
             "modelled, not verified: Rust slices as lists, usize as nat (no value near 2^64), Base/Float.v as IEEE-754 binary32/64 (validated against rustc in this run)",
+            "translators translate/conv2coq.py, sampletable2coq.py (generated sample conversions used by the all-format cases; each result is additionally compared with its ConvSpec specification value)",
             "libm cos: taken from the implementation as data in the model run; validated against python math.cos (same glibc) with a 4-ulp tolerance on the cos value"],
         "theorems": th, "axioms_reported": info.get("axioms", []),
         "evaluations": n, "distinct_nontrivial": nontriv,
-        "rule": "grid L=0..40 x bin=2..9 x hop (quick: structured subset {1,b,L-b,L,L+1}+{2,L-b+1} or {b+1,L-1,45}+2 random, hop 1 and 2 only for L<=20 or L%4=0; thorough: all 1..45), window and frame format rotating over {Hann,Rectangle} x {f32,f64,i16} x {1,2 channels}; plus larger random (L<=150, bin<=64), off-domain (bin<2, hop=0), window-function cases and provided-Iterator-method cases (last, nth, count, fold, skip, step_by, collect, by_ref().last()/count() on Windower with size_hint after every op; nth, skip, take(n).last(), step_by on Window and Windowed; 70% of them with (L-bin) % hop != 0 and at least two chunks); non-trivial = bin>=2, hop>=1 and (L >= bin+hop, i.e. at least two chunks, or L == bin)",
+        "rule": "grid L=0..40 x bin=2..9 x hop (quick: structured subset {1,b,L-b,L,L+1}+{2,L-b+1} or {b+1,L-1,45}+2 random, hop 1 and 2 only for L<=20 or L%4=0; thorough: all 1..45), window and frame format rotating over {Hann,Rectangle} x {f32,f64,i16} x {1,2 channels}; plus larger random (L<=150, bin<=64), off-domain (bin<2, hop=0), window-function cases, all-format cases (each of the 14 sample formats x 1/2/3 channels x rectangle and odd-bin Hann, samples at/near the rails and near equilibrium placed where the window value is exactly 1.0; the model's sample operations are the conversions regenerated from dasp_sample, every result compared with its ConvSpec value; Window::<F,W> frames in the frame's own format) and provided-Iterator-method cases (last, nth, count, fold, skip, step_by, collect, by_ref().last()/count() on Windower with size_hint after every op; nth, skip, take(n).last(), step_by on Window and Windowed; 70% of them with (L-bin) % hop != 0 and at least two chunks); non-trivial = bin>=2, hop>=1 and (L >= bin+hop, i.e. at least two chunks, or L == bin)",
         "samples": samples, "input_distribution": dist, "disagreements": len(bad), "verdict_failures": len(vbad),
         "explanation": "theorems: window shape over R with the true cos, sampled phases, chunk count / chunk position / size_hint for all L, bin>=1, hop>=1 by induction, last()/nth(k)/count() of the model iterator (defaults of core::iter over next) = chunk count-1 / chunk k / count; tie: the model's IEEE instance run by coqc on the same cases as the real crates, every observation compared exactly except libm cos (4-ulp oracle)",
     }
